@@ -920,6 +920,15 @@ class LifeRun(Base):
                 served = pub + priv
             except UnicodeDecodeError:
                 served = None
+        # the suffix list alone, when that body arrived whole (an implementation may
+        # install it even though the TLD body did not arrive)
+        served_rules0 = None
+        if body0 is not None:
+            try:
+                pub0, priv0 = psl.parse_psl_text(body0.decode("utf-8"))
+                served_rules0 = pub0 + priv0
+            except UnicodeDecodeError:
+                served_rules0 = None
         if self.net.requests.count(0) == 0 and outcome == "ok":
             stats.probe("upgrade_ok_without_fetching_the_suffix_list")
         stats.event("OP|upgrade|%s|%s|%s|writes=%d" % (transient, canon(fault), outcome, self.disk.writes))
@@ -940,7 +949,7 @@ class LifeRun(Base):
                 # …and whatever upgrade() made of it, no complete pair of bodies ever
                 # arrived: the list in effect before the call is still the one in effect
                 stats.checks += 1
-                if previous is not None and sorted(self.current_lists()) != sorted(previous):
+                if previous is not None and sorted(self.current_lists()) != sorted(previous) and (served_rules0 is None or sorted(self.current_lists()) != sorted(served_rules0)):
                     self.raise_or_known({"invariant": "upgrade_installed_a_list_never_served", "got": "%d rules in effect" % len(self.current_lists()), "expected": "the %d rules in effect before the call" % len(previous), "host": "-", "form": canon(fault)}, "upgrade")
                 self.state("upgrade_ok")
                 return outcome
@@ -977,7 +986,7 @@ class LifeRun(Base):
             # data file from before an earlier transient upgrade
             stats.checks += 1
             now = sorted(self.current_lists())
-            if previous is not None and now != sorted(previous) and (served is None or now != sorted(served)):
+            if previous is not None and now != sorted(previous) and (served is None or now != sorted(served)) and (served_rules0 is None or now != sorted(served_rules0)):
                 self.raise_or_known({"invariant": "failed_upgrade_left_a_third_list", "got": "%d rules in effect" % len(now), "expected": "the %d rules in effect before the call%s" % (len(previous), "" if served is None else " or the %d served" % len(served)), "host": "-", "form": canon(fault)}, "upgrade_failed")
             if not transient:
                 self.persisted = None
